@@ -378,6 +378,9 @@ def _numeric_filter(cands, ctx, pc, negs):
             if nm in ctx.by_name:
                 val[ctx.by_name[nm]] = v
         val[ctx.pi] = math.pi
+        for i in range(len(ctx.names)):
+            if ctx.kind[i] == "real" and ctx.info[i].get("value") is not None:
+                val[i] = ctx.info[i]["value"]
         # fresh variables: cannot evaluate -> skip filter for them
         if any(ctx.kind[i] == "real" and i not in val for i in range(len(ctx.names))):
             good.append(d)
@@ -403,6 +406,9 @@ def _holds(f, val, tol):
             return {"==": abs(v) <= t, "!=": True, ">": v > -t, ">=": v >= -t, "<": v < t, "<=": v <= t}[f.op]
         return {"==": abs(v) <= t, "!=": abs(v) > t, ">": v > t, ">=": v >= t, "<": v < -t, "<=": v <= -t}[f.op]
     tag = f[0]
+    if tag == "z3":
+        # opaque solver term (symx.paulibv): cannot be judged numerically -> the caller keeps the candidate
+        raise ValueError("opaque z3 formula")
     if tag == "and":
         return all(_holds(x, val, tol) for x in f[1])
     if tag == "or":
